@@ -21,6 +21,7 @@ type FS struct {
 	mu     sync.Mutex
 	sim    *Sim
 	files  map[string]*inode
+	links  map[string]string // symbolic links: path -> target
 	dirs   map[string]os.FileMode
 	nextIn int
 	frozen bool
@@ -61,7 +62,7 @@ type Fault struct {
 }
 
 func NewFS() *FS {
-	return &FS{files: map[string]*inode{}, dirs: map[string]os.FileMode{"/": 0o755, ".": 0o755}, Plan: map[int]Fault{}, Fired: map[string]int{}, ReadOnlyDirs: map[string]bool{}}
+	return &FS{files: map[string]*inode{}, links: map[string]string{}, dirs: map[string]os.FileMode{"/": 0o755, ".": 0o755}, Plan: map[int]Fault{}, Fired: map[string]int{}, ReadOnlyDirs: map[string]bool{}}
 }
 
 func clean(p string) string {
@@ -86,6 +87,45 @@ func (f *FS) Put(p string, data string, mode os.FileMode) {
 
 func (f *FS) Mkdir(p string) { f.dirs[clean(p)] = 0o755 }
 
+// PutLink installs a symbolic link before the run.
+func (f *FS) PutLink(p, target string) {
+	p = clean(p)
+	f.links[p] = target
+	for d := path.Dir(p); ; d = path.Dir(d) {
+		f.dirs[d] = 0o755
+		if d == "." || d == "/" {
+			break
+		}
+	}
+}
+
+// resolve follows symbolic links on the last path element.
+func (f *FS) resolve(p string) string {
+	for i := 0; i < 8; i++ {
+		t, ok := f.links[p]
+		if !ok {
+			return p
+		}
+		if path.IsAbs(t) {
+			p = clean(t)
+		} else {
+			p = clean(path.Join(path.Dir(p), t))
+		}
+	}
+	return p
+}
+
+// Links returns the symbolic links that currently exist.
+func (f *FS) Links() map[string]string {
+	f.mu.Lock()
+	defer f.mu.Unlock()
+	m := map[string]string{}
+	for k, v := range f.links {
+		m[k] = v
+	}
+	return m
+}
+
 // Snapshot returns the volatile image: path -> content.
 func (f *FS) Snapshot() map[string]string {
 	f.mu.Lock()
@@ -93,6 +133,12 @@ func (f *FS) Snapshot() map[string]string {
 	m := map[string]string{}
 	for p, in := range f.files {
 		m[p] = string(in.data)
+	}
+	// what a reader sees through a link
+	for p := range f.links {
+		if in, ok := f.files[f.resolve(p)]; ok {
+			m[p] = string(in.data)
+		}
 	}
 	return m
 }
@@ -403,7 +449,9 @@ func ReadFile(name string) ([]byte, error) {
 	if f == nil {
 		return os.ReadFile(name)
 	}
-	p := clean(name)
+	f.mu.Lock()
+	p := f.resolve(clean(name))
+	f.mu.Unlock()
 	r, flt := f.begin(FsOp{Op: "readfile", Path: p})
 	if flt != nil {
 		switch flt.Kind {
@@ -464,7 +512,12 @@ func OpenFile(name string, flag int, perm os.FileMode) (*File, error) {
 		}
 		return &File{real: rf}, nil
 	}
+	f.mu.Lock()
 	p := clean(name)
+	if flag&os.O_EXCL == 0 {
+		p = f.resolve(p)
+	}
+	f.mu.Unlock()
 	r, flt := f.begin(FsOp{Op: "open", Path: p, Len: flag})
 	if flt != nil {
 		switch flt.Kind {
@@ -564,7 +617,9 @@ func Stat(name string) (os.FileInfo, error) {
 	if f == nil {
 		return os.Stat(name)
 	}
-	p := clean(name)
+	f.mu.Lock()
+	p := f.resolve(clean(name))
+	f.mu.Unlock()
 	r, flt := f.begin(FsOp{Op: "stat", Path: p})
 	if flt != nil {
 		switch flt.Kind {
@@ -585,14 +640,52 @@ func Stat(name string) (os.FileInfo, error) {
 	return fileInfo{name: path.Base(p), size: int64(len(in.data)), mode: in.mode}, nil
 }
 
-func Lstat(name string) (os.FileInfo, error) { return Stat(name) }
+func Lstat(name string) (os.FileInfo, error) {
+	f := theFS()
+	if f == nil {
+		return os.Lstat(name)
+	}
+	f.mu.Lock()
+	_, isLink := f.links[clean(name)]
+	f.mu.Unlock()
+	if isLink {
+		return fileInfo{name: path.Base(name), mode: os.ModeSymlink | 0o777}, nil
+	}
+	return Stat(name)
+}
+
+func Readlink(name string) (string, error) {
+	f := theFS()
+	if f == nil {
+		return os.Readlink(name)
+	}
+	f.mu.Lock()
+	defer f.mu.Unlock()
+	if t, ok := f.links[clean(name)]; ok {
+		return t, nil
+	}
+	return "", pathErr("readlink", name, syscall.EINVAL)
+}
+
+func Symlink(oldname, newname string) error {
+	f := theFS()
+	if f == nil {
+		return os.Symlink(oldname, newname)
+	}
+	f.mu.Lock()
+	defer f.mu.Unlock()
+	f.links[clean(newname)] = oldname
+	return nil
+}
 
 func Chmod(name string, m os.FileMode) error {
 	f := theFS()
 	if f == nil {
 		return os.Chmod(name, m)
 	}
-	p := clean(name)
+	f.mu.Lock()
+	p := f.resolve(clean(name))
+	f.mu.Unlock()
 	r, flt := f.begin(FsOp{Op: "chmod", Path: p, Len: int(m)})
 	if flt != nil {
 		switch flt.Kind {
@@ -630,6 +723,15 @@ func Rename(oldp, newp string) error {
 	}
 	f.mu.Lock()
 	defer f.mu.Unlock()
+	if t, isLink := f.links[a]; isLink {
+		if e := f.parentOK(b); e != nil {
+			return &os.LinkError{Op: "rename", Old: oldp, New: newp, Err: e}
+		}
+		delete(f.links, a)
+		delete(f.files, b)
+		f.links[b] = t
+		return nil
+	}
 	in, isDir, ok := f.lookup(a)
 	if !ok || isDir {
 		f.Trace[r.N].Err = "ENOENT"
@@ -647,6 +749,7 @@ func Rename(oldp, newp string) error {
 		f.Trace[r.N].Err = "EISDIR"
 		return &os.LinkError{Op: "rename", Old: oldp, New: newp, Err: syscall.EISDIR}
 	}
+	delete(f.links, b) // a rename over a symbolic link replaces the link itself
 	f.files[b] = in
 	delete(f.files, a)
 	f.Trace[r.N].Ino = in.id
@@ -675,6 +778,10 @@ func Remove(name string) error {
 	}
 	f.mu.Lock()
 	defer f.mu.Unlock()
+	if _, isLink := f.links[p]; isLink {
+		delete(f.links, p)
+		return nil
+	}
 	in, _, ok := f.lookup(p)
 	if !ok || in == nil {
 		f.Trace[r.N].Err = "ENOENT"
